@@ -45,6 +45,10 @@ def judge_grid(R, grid, source="direct"):
     case = {"shape": list(shape), "source": source}
     R.count("grid_constructed")
     h = np.asarray(grid.voxel_size, dtype=float)
+    # the description of the grid is coherent in itself: one extent and one voxel size per dimension
+    if not R.check(len(shape) == int(grid.dim) == h.size and 1 <= len(shape) <= 3 and all(s_ >= 1 for s_ in shape), "grid_description_coherent",
+                   {**case, "dim": int(grid.dim), "voxel_sizes": int(h.size)}):
+        return
     M = GridModel(shape, h)
     dim = len(shape)
     ok = True
